@@ -17,7 +17,8 @@ from mc import oracle as O
 PROPERTY = "C05"
 
 VARIANTS = ["sqlalchemy", "sqlalchemy_table", "sqlalchemy_hybrid"]
-TYPES = ["int", "float", "str", "bool", "dict", "Optional[int]", "Optional[float]", "Optional[str]", "Optional[bool]", "Optional[dict]", "Literal['a', 'b']", "Literal['a', 'b', 'c']"]
+TYPES = ["int", "float", "str", "bool", "dict", "Optional[int]", "Optional[float]", "Optional[str]", "Optional[bool]", "Optional[dict]", "Literal['a', 'b']", "Literal['a', 'b', 'c']",
+         "Literal['a']", "Optional[Literal['a', 'b']]"]
 
 
 def sql_defaults(t):
